@@ -785,33 +785,51 @@ def canonical_statements(trees: list[ast.Module]) -> dict[str, int]:
                         tgt = st.target.id
                     val = getattr(st, "value", None)
                     loop = blk[i + 1]
-                    if tgt and isinstance(val, ast.List) and not val.elts \
-                            and len(loop.body) == 1:
+                    is_set = isinstance(val, ast.Call) and isinstance(
+                        val.func, ast.Name) and val.func.id == "set" \
+                        and not val.args and not val.keywords
+                    is_list = isinstance(val, ast.List) and not val.elts
+
+                    def unguard(body: list[ast.stmt],
+                                g: ast.comprehension) -> Optional[ast.stmt]:
+                        # ``if c: continue`` clauses in front of the single
+                        # remaining statement are filters ``not c``
+                        body = list(body)
+                        while len(body) > 1 and isinstance(body[0], ast.If) \
+                                and not body[0].orelse and len(
+                                    body[0].body) == 1 and isinstance(
+                                    body[0].body[0], ast.Continue):
+                            g.ifs.append(ast.UnaryOp(op=ast.Not(),
+                                                     operand=body[0].test))
+                            body = body[1:]
+                        return body[0] if len(body) == 1 else None
+                    if tgt and (is_list or is_set) and loop.body:
                         # a chain of nested ``for`` / ``if`` (no else) that
                         # ends in ``tgt.append(e)``
                         gens: list[ast.comprehension] = [ast.comprehension(
                             target=loop.target, iter=loop.iter, ifs=[],
                             is_async=0)]
-                        inner: ast.stmt = loop.body[0]
-                        ok_chain = True
-                        while True:
+                        inner: Optional[ast.stmt] = unguard(loop.body,
+                                                            gens[-1])
+                        while inner is not None:
                             if isinstance(inner, ast.If) and not inner.orelse \
                                     and len(inner.body) == 1:
                                 gens[-1].ifs.append(inner.test)
                                 inner = inner.body[0]
                             elif isinstance(inner, ast.For) and not \
-                                    inner.orelse and len(inner.body) == 1:
+                                    inner.orelse and inner.body:
                                 gens.append(ast.comprehension(
                                     target=inner.target, iter=inner.iter,
                                     ifs=[], is_async=0))
-                                inner = inner.body[0]
+                                inner = unguard(inner.body, gens[-1])
                             else:
                                 break
                         parts = [x for g in gens for x in [g.iter] + g.ifs]
                         if isinstance(inner, ast.Expr) and isinstance(
                                 inner.value, ast.Call) and isinstance(
                                 inner.value.func, ast.Attribute) \
-                                and inner.value.func.attr == "append" \
+                                and inner.value.func.attr == (
+                                    "append" if is_list else "add") \
                                 and isinstance(inner.value.func.value,
                                                ast.Name) \
                                 and inner.value.func.value.id == tgt \
@@ -819,8 +837,9 @@ def canonical_statements(trees: list[ast.Module]) -> dict[str, int]:
                                 and not inner.value.keywords \
                                 and not mentions(inner.value.args[0], tgt) \
                                 and not any(mentions(c, tgt) for c in parts):
-                            comp = ast.ListComp(elt=inner.value.args[0],
-                                                generators=gens)
+                            comp = (ast.ListComp if is_list else
+                                    ast.SetComp)(elt=inner.value.args[0],
+                                                 generators=gens)
                             new = ast.Assign(
                                 targets=[ast.Name(id=tgt, ctx=ast.Store())],
                                 value=comp)
